@@ -165,9 +165,17 @@ def lex_inputs(ctx, n_random, exhaustive_len, sample_len4=0.0):
 
 def include_graphs(ctx, n):
     cases = []
-    names = ['a', 'b', 'c', 'd']
     r = ctx.rnd
     for _ in range(n):
+        # file names: mostly plain; sometimes boundary spellings (the empty name, a blank, a case twin, a path, a name with
+        # a quote-free special character, the name of the hidden standard file)
+        names = ['a', 'b', 'c', 'd']
+        if r.random() < 0.3:
+            odd = ['', ' ', 'A', 'a/b.theo', '..', '-', '__standards__', 'a b', 'ä', '0']
+            for j in r.sample(range(4), r.randint(1, 2)):
+                cand = r.choice(odd)
+                if cand not in names:
+                    names[j] = cand
         nf = r.randint(1, 4)
         files = {}
         for nm in names[:nf]:
@@ -175,7 +183,7 @@ def include_graphs(ctx, n):
             for _ in range(r.randint(0, 5)):
                 k = r.random()
                 if k < 0.45:
-                    parts.append('include "%s"' % r.choice(names[:nf] + ['zz']))
+                    parts.append('include "%s"' % r.choice(names[:nf] + ['zz', names[-1], '']))
                 elif k < 0.55:
                     parts.append(r.choice(['include 5', 'include x', 'include', 'INCLUDE "', 'Include\n"%s"' % r.choice(names[:nf]),
                                            'include "%s\n"' % names[0], 'include include "a"', 'include "a" "b"']))
@@ -183,8 +191,8 @@ def include_graphs(ctx, n):
                     parts.append(r.choice(['x', 'y := 1;', '// c', 'x\0y']))
                 else:
                     parts.append('\n')
-            files[nm.encode()] = (' '.join(parts)).encode('latin1')
-        mainf = r.choice([b'a', b'a', b'a', b'q', names[nf - 1].encode()])
+            files[nm.encode('latin1')] = (' '.join(parts)).encode('latin1')
+        mainf = r.choice([names[0].encode('latin1'), names[0].encode('latin1'), b'a', b'q', names[nf - 1].encode('latin1'), b''])
         cases.append((mainf, files))
     return cases
 
